@@ -27,14 +27,6 @@ def isWrite (e : Entry) : Bool :=
   | .getNode _ | .describeAsgs _ | .describeStatus _ | .describeInstances _ | .build => false
   | _ => true
 
-/-- Node names / instance ids a call is aimed at. -/
-def removalTargetNode (c : Ctx) (e : Entry) : Option (Option Node) :=
-  match e.call with
-  | .deleteNode name => some (c.view.nodes.find? (fun n => n.name == name))
-  | .terminateInAsg id _ =>
-      some (c.view.nodes.find? (fun n => c.g.asg.instances.any (fun i => i.id == id && providerIdOf i == n.providerID)))
-  | _ => none
-
 /-! ### C01 -/
 
 /-- The property's removal condition, with the *true* age of the recorded taint time. -/
@@ -47,23 +39,30 @@ def eligible (c : Ctx) (n : Node) : Bool :=
       let age := trueAgeNs c.nowMock v
       (age > c.cfg.softNs && nodeEmpty c.view.pods n) || age > c.cfg.hardNs))
 
-/-- A removal call is justified when some eligible node of the view backs it. -/
-def C01.okEntry (c : Ctx) (e : Entry) : Bool :=
+/-- A removal call (terminate / delete) is backed by a node of the view satisfying `p`:
+    for a delete, a node of that name; for a terminate, a node whose provider id is that of an
+    instance of the cached cloud group with the terminated id. Other calls are vacuously backed. -/
+def removalBackedBy (c : Ctx) (p : Node → Bool) (e : Entry) : Bool :=
   match e.call with
-  | .deleteNode name => c.view.nodes.any (fun n => n.name == name && eligible c n)
+  | .deleteNode name => c.view.nodes.any (fun n => n.name == name && p n)
   | .terminateInAsg id _ =>
-      c.view.nodes.any (fun n => eligible c n && c.g.asg.instances.any (fun i => i.id == id && providerIdOf i == n.providerID))
+      c.view.nodes.any (fun n => p n && c.g.asg.instances.any (fun i => i.id == id && providerIdOf i == n.providerID))
   | _ => true
+
+/-- A removal call is justified when some eligible node of the view backs it. -/
+def C01.okEntry (c : Ctx) (e : Entry) : Bool := removalBackedBy c (eligible c) e
 
 def C01.holds (c : Ctx) (j : Journal) : Bool := j.all (C01.okEntry c)
 
 /-- Diagnostic for the monitor: the offending removal calls. -/
 def describeRemoval (c : Ctx) (e : Entry) : String :=
-  match e.call, removalTargetNode c e with
-  | .deleteNode name, _ => "delete " ++ name
-  | .terminateInAsg id _, some (some n) => "terminate " ++ id ++ " node " ++ n.name
-  | .terminateInAsg id _, _ => "terminate " ++ id ++ " node ?"
-  | _, _ => "?"
+  match e.call with
+  | .deleteNode name => "delete " ++ name
+  | .terminateInAsg id _ =>
+      match c.view.nodes.find? (fun n => c.g.asg.instances.any (fun i => i.id == id && providerIdOf i == n.providerID)) with
+      | some n => "terminate " ++ id ++ " node " ++ n.name
+      | none => "terminate " ++ id ++ " node ?"
+  | _ => "?"
 
 def C01.bad (c : Ctx) (j : Journal) : List String := (j.filter (fun e => !C01.okEntry c e)).map (describeRemoval c)
 
@@ -98,12 +97,22 @@ def C03.holds (c : Ctx) (j : Journal) : Bool :=
 
 def bound (c : Ctx) : Int := if c.st.maxEff < c.g.asg.max then c.st.maxEff else c.g.asg.max
 
-def C04.holds (c : Ctx) (j : Journal) : Bool :=
-  j.all (fun e =>
-    match e.call with
-    | .setDesired _ v => v ≤ bound c
-    | .createFleet r => c.g.asg.desired + r.total ≤ bound c
-    | _ => true)
+/-- An accepted terminate-with-decrement lowers the cloud group's desired size by one. -/
+def isOkDecTerminate (e : Entry) : Bool :=
+  e.ok && (match e.call with | .terminateInAsg _ true => true | _ => false)
+
+/-- Walk the journal keeping the cloud group's current desired size (`cur`): every resize request
+    must land at or below `bnd`. -/
+def C04.go (bnd : Int) : Int → Journal → Bool
+  | _, [] => true
+  | cur, e :: es =>
+    (match e.call with
+     | .setDesired _ v => decide (v ≤ bnd)
+     | .createFleet r => decide (cur + r.total ≤ bnd)
+     | _ => true) &&
+    C04.go bnd (if isOkDecTerminate e then cur - 1 else cur) es
+
+def C04.holds (c : Ctx) (j : Journal) : Bool := C04.go (bound c) c.g.asg.desired j
 
 /-! ### C09 -/
 
@@ -114,24 +123,23 @@ def targetName (e : Entry) : Option String :=
   | .deleteNode n => some n
   | _ => none
 
-def C09.holds (c : Ctx) (j : Journal) : Bool :=
-  c.dry ||
-  j.all (fun e =>
-    (match targetName e with
-     | some name => !(c.view.nodes.any (fun n => n.name == name && n.unschedulable))
-     | none => true) &&
-    (match e.call with
-     | .terminateInAsg id _ =>
-        !(c.view.nodes.any (fun n => n.unschedulable && c.g.asg.instances.any (fun i => i.id == id && providerIdOf i == n.providerID)))
-     | _ => true))
+/-- Every call aimed at a node is aimed at an uncordoned node of the view. -/
+def C09.okEntry (c : Ctx) (e : Entry) : Bool :=
+  (match targetName e with
+   | some name => c.view.nodes.any (fun n => n.name == name && !n.unschedulable)
+   | none => true) &&
+  removalBackedBy c (fun n => !n.unschedulable) e
+
+def C09.holds (c : Ctx) (j : Journal) : Bool := c.dry || j.all (C09.okEntry c)
 
 /-! ### C10 -/
 
-def C10.holds (c : Ctx) (j : Journal) : Bool :=
-  j.all (fun e =>
-    match removalTargetNode c e with
-    | some (some n) => !(safeFromDeletion n && !hasTaint forceKey n)
-    | _ => true)
+/-- Protected by the no-delete annotation (and not force-tainted). -/
+def protectedNode (n : Node) : Bool := safeFromDeletion n && !hasTaint forceKey n
+
+def C10.okEntry (c : Ctx) (e : Entry) : Bool := removalBackedBy c (fun n => !protectedNode n) e
+
+def C10.holds (c : Ctx) (j : Journal) : Bool := j.all (C10.okEntry c)
 
 /-! ### C11 -/
 
